@@ -58,11 +58,12 @@ struct TdFam {
 // ------------------------------------------------------------------ count-min
 struct CmFam {
   typedef track_alloc<uint64_t> A; typedef count_min_sketch<uint64_t, A> Obj;
-  struct Cfg { uint8_t hashes; uint32_t buckets; uint64_t seed; uint32_t max_batch; };
+  struct Cfg { uint8_t hashes; uint32_t buckets; uint64_t seed; uint32_t max_batch; uint8_t hashes2; uint32_t buckets2; uint64_t seed2; };
   static const char* name() { return "count_min"; }
-  static Cfg gen_cfg(Rng& r) { Cfg c; c.hashes = static_cast<uint8_t>(r.range(1, 5)); c.buckets = static_cast<uint32_t>(r.range(3, 200)); c.seed = r.coin() ? DEFAULT_SEED : r.next(); c.max_batch = r.coin() ? 10 : 500; return c; }
+  static Cfg gen_cfg(Rng& r) { Cfg c; c.hashes = static_cast<uint8_t>(r.range(1, 5)); c.buckets = static_cast<uint32_t>(r.range(3, 200)); c.seed = r.coin() ? DEFAULT_SEED : r.next(); c.max_batch = r.coin() ? 10 : 500;
+    c.hashes2 = r.coin() ? c.hashes : static_cast<uint8_t>(r.range(1, 5)); c.buckets2 = r.coin() ? c.buckets : static_cast<uint32_t>(r.range(3, 200)); c.seed2 = r.coin() ? c.seed : r.next(); return c; }
   static std::string cfg_str(const Cfg& c) { return "hashes=" + std::to_string(c.hashes) + " buckets=" + std::to_string(c.buckets) + " seed=" + std::to_string(c.seed) + " max_batch=" + std::to_string(c.max_batch); }
-  static void construct(void* mem, const Cfg& c, Arena* a, Rng&) { new (mem) Obj(c.hashes, c.buckets, c.seed, A(a)); }
+  static void construct(void* mem, const Cfg& c, Arena* a, Rng& r) { if (r.coin()) new (mem) Obj(c.hashes, c.buckets, c.seed, A(a)); else new (mem) Obj(c.hashes2, c.buckets2, c.seed2, A(a)); }
   static void mutate(Obj& o, const Cfg& c, Rng& r, Arena*) {
     const uint64_t n = 1 + r.below(c.max_batch);
     for (uint64_t i = 0; i < n; ++i) {
@@ -78,12 +79,14 @@ struct CmFam {
   }
   static void query(const Obj& o, const Cfg&, Rng& r) { const uint64_t v = r.below(1000); (void)o.get_estimate(v); (void)o.get_upper_bound(v); (void)o.get_lower_bound(v); (void)o.get_relative_error(); }
   static const bool HAS_MERGE_REF = true, HAS_MERGE_MOVE = false, HAS_RESET = false, HAS_ROUNDTRIP = true;
-  static void merge_ref(Obj& d, const Obj& s, const Cfg&) { d.merge(s); }
+  // objects of differently shaped configurations cannot be merged (documented: throws); merge only compatible ones
+  static void merge_ref(Obj& d, const Obj& s, const Cfg&) { if (d.get_num_hashes() == s.get_num_hashes() && d.get_num_buckets() == s.get_num_buckets() && d.get_seed() == s.get_seed()) d.merge(s); else xcount("count_min.merge_skipped_incompatible"); }
   static void merge_move(Obj&, Obj&&, const Cfg&) {}
   static void reset(Obj&, const Cfg&) {}
-  static void roundtrip(void* mem, const Obj& src, const Cfg& c, Arena* a, Rng& r) {
-    if (r.coin()) { const unsigned hdr = r.coin() ? 0 : 8; auto b = src.serialize(hdr); new (mem) Obj(Obj::deserialize(b.data() + hdr, b.size() - hdr, c.seed, A(a))); }
-    else { std::stringstream ss(std::ios::in | std::ios::out | std::ios::binary); src.serialize(ss); new (mem) Obj(Obj::deserialize(ss, c.seed, A(a))); }
+  static void roundtrip(void* mem, const Obj& src, const Cfg&, Arena* a, Rng& r) {
+    const uint64_t seed = src.get_seed();
+    if (r.coin()) { const unsigned hdr = r.coin() ? 0 : 8; auto b = src.serialize(hdr); new (mem) Obj(Obj::deserialize(b.data() + hdr, b.size() - hdr, seed, A(a))); }
+    else { std::stringstream ss(std::ios::in | std::ios::out | std::ios::binary); src.serialize(ss); new (mem) Obj(Obj::deserialize(ss, seed, A(a))); }
   }
   static std::string mode(const Obj& o, const Cfg&) { return o.is_empty() ? "empty" : "nonempty"; }
 };
@@ -91,11 +94,12 @@ struct CmFam {
 // ------------------------------------------------------------------ Bloom filter (memory owned by the filter)
 struct BloomFam {
   typedef track_alloc<uint8_t> A; typedef bloom_filter_alloc<A> Obj;
-  struct Cfg { uint64_t bits; uint16_t hashes; uint64_t seed; uint32_t max_batch; };
+  struct Cfg { uint64_t bits; uint16_t hashes; uint64_t seed; uint32_t max_batch; uint64_t bits2; uint16_t hashes2; uint64_t seed2; };
   static const char* name() { return "bloom"; }
-  static Cfg gen_cfg(Rng& r) { Cfg c; c.bits = 64 * static_cast<uint64_t>(r.range(1, 40)) - (r.coin() ? 0 : r.below(63)); c.hashes = static_cast<uint16_t>(r.range(1, 7)); c.seed = r.next(); c.max_batch = r.coin() ? 5 : 300; return c; }
+  static Cfg gen_cfg(Rng& r) { Cfg c; c.bits = 64 * static_cast<uint64_t>(r.range(1, 40)) - (r.coin() ? 0 : r.below(63)); c.hashes = static_cast<uint16_t>(r.range(1, 7)); c.seed = r.next(); c.max_batch = r.coin() ? 5 : 300;
+    c.bits2 = r.coin() ? c.bits : 64 * static_cast<uint64_t>(r.range(1, 40)); c.hashes2 = r.coin() ? c.hashes : static_cast<uint16_t>(r.range(1, 7)); c.seed2 = r.coin() ? c.seed : r.next(); return c; }
   static std::string cfg_str(const Cfg& c) { return "bits=" + std::to_string(c.bits) + " hashes=" + std::to_string(c.hashes) + " seed=" + std::to_string(c.seed) + " max_batch=" + std::to_string(c.max_batch); }
-  static void construct(void* mem, const Cfg& c, Arena* a, Rng&) { new (mem) Obj(Obj::builder::create_by_size(c.bits, c.hashes, c.seed, A(a))); }
+  static void construct(void* mem, const Cfg& c, Arena* a, Rng& r) { if (r.coin()) new (mem) Obj(Obj::builder::create_by_size(c.bits, c.hashes, c.seed, A(a))); else new (mem) Obj(Obj::builder::create_by_size(c.bits2, c.hashes2, c.seed2, A(a))); }
   static void mutate(Obj& o, const Cfg& c, Rng& r, Arena*) {
     if (r.chance(0.07)) { o.invert(); return; }
     const uint64_t n = 1 + r.below(c.max_batch);
@@ -111,7 +115,7 @@ struct BloomFam {
   }
   static void query(const Obj& o, const Cfg&, Rng& r) { const uint64_t v = r.below(5000); (void)o.query(v); (void)o.query(std::string("x") + std::to_string(v)); (void)o.get_serialized_size_bytes(); }
   static const bool HAS_MERGE_REF = true, HAS_MERGE_MOVE = false, HAS_RESET = true, HAS_ROUNDTRIP = true;
-  static void merge_ref(Obj& d, const Obj& s, const Cfg&) { if (s.is_empty() || (mix64(s.get_capacity(), d.get_seed()) & 1)) d.union_with(s); else d.intersect(s); }
+  static void merge_ref(Obj& d, const Obj& s, const Cfg&) { if (!d.is_compatible(s)) { xcount("bloom.merge_skipped_incompatible"); return; } if (s.is_empty() || (mix64(s.get_capacity(), d.get_seed()) & 1)) d.union_with(s); else d.intersect(s); }
   static void merge_move(Obj&, Obj&&, const Cfg&) {}
   static void reset(Obj& o, const Cfg&) { o.reset(); }
   static void roundtrip(void* mem, const Obj& src, const Cfg&, Arena* a, Rng& r) {
@@ -130,15 +134,15 @@ struct AnyVectorKernel {   // gaussian kernel that accepts vectors with any allo
 };
 struct DensityFam {
   typedef track_alloc<double> A; typedef density_sketch<double, AnyVectorKernel, A> Obj; typedef std::vector<double, A> Vec;
-  struct Cfg { uint16_t k1, k2; uint32_t dim; uint32_t max_batch; };
+  struct Cfg { uint16_t k1, k2; uint32_t dim, dim2; uint32_t max_batch; };
   static const char* name() { return "density"; }
-  static Cfg gen_cfg(Rng& r) { Cfg c; static const uint16_t ks[] = {2, 3, 8, 20}; c.k1 = ks[r.below(4)]; c.k2 = r.coin() ? c.k1 : ks[r.below(4)]; c.dim = static_cast<uint32_t>(r.range(1, 5)); c.max_batch = r.chance(0.3) ? 4 : (r.coin() ? 60 : 600); return c; }
+  static Cfg gen_cfg(Rng& r) { Cfg c; static const uint16_t ks[] = {2, 3, 8, 20}; c.k1 = ks[r.below(4)]; c.k2 = r.coin() ? c.k1 : ks[r.below(4)]; c.dim = static_cast<uint32_t>(r.range(1, 5)); c.dim2 = r.coin() ? c.dim : static_cast<uint32_t>(r.range(1, 5)); c.max_batch = r.chance(0.3) ? 4 : (r.coin() ? 60 : 600); return c; }
   static std::string cfg_str(const Cfg& c) { return "k1=" + std::to_string(c.k1) + " k2=" + std::to_string(c.k2) + " dim=" + std::to_string(c.dim) + " max_batch=" + std::to_string(c.max_batch); }
-  static void construct(void* mem, const Cfg& c, Arena* a, Rng& r) { new (mem) Obj(r.coin() ? c.k1 : c.k2, c.dim, AnyVectorKernel(), A(a)); }
+  static void construct(void* mem, const Cfg& c, Arena* a, Rng& r) { new (mem) Obj(r.coin() ? c.k1 : c.k2, r.coin() ? c.dim : c.dim2, AnyVectorKernel(), A(a)); }
   static void mutate(Obj& o, const Cfg& c, Rng& r, Arena* scratch) {
     const uint64_t n = 1 + r.below(c.max_batch);
     for (uint64_t i = 0; i < n; ++i) {
-      Vec v(c.dim, 0.0, A(scratch));
+      Vec v(o.get_dim(), 0.0, A(scratch));
       for (auto& x : v) x = static_cast<double>(r.below(64)) / 16.0;
       if (r.coin()) o.update(v); else o.update(std::move(v));
     }
@@ -150,10 +154,11 @@ struct DensityFam {
     s += " bytes=" + bytes_hex(o.serialize());
     return s;
   }
-  static void query(const Obj& o, const Cfg& c, Rng& r) { if (o.is_empty()) return; std::vector<double> p(c.dim, r.unit()); (void)o.get_estimate(p); }
+  static void query(const Obj& o, const Cfg&, Rng& r) { if (o.is_empty()) return; std::vector<double> p(o.get_dim(), r.unit()); (void)o.get_estimate(p); }
   static const bool HAS_MERGE_REF = true, HAS_MERGE_MOVE = true, HAS_RESET = false, HAS_ROUNDTRIP = true;
-  static void merge_ref(Obj& d, const Obj& s, const Cfg&) { d.merge(s); }
-  static void merge_move(Obj& d, Obj&& s, const Cfg&) { d.merge(std::move(s)); }
+  // sketches of different dimension cannot be merged (documented: throws); merge only compatible ones
+  static void merge_ref(Obj& d, const Obj& s, const Cfg&) { if (d.get_dim() == s.get_dim()) d.merge(s); else xcount("density.merge_skipped_incompatible"); }
+  static void merge_move(Obj& d, Obj&& s, const Cfg&) { if (d.get_dim() == s.get_dim()) d.merge(std::move(s)); else xcount("density.merge_skipped_incompatible"); }
   static void reset(Obj&, const Cfg&) {}
   static void roundtrip(void* mem, const Obj& src, const Cfg&, Arena* a, Rng& r) {
     if (r.coin()) { const unsigned hdr = r.coin() ? 0 : 8; auto b = src.serialize(hdr); new (mem) Obj(Obj::deserialize(b.data() + hdr, b.size() - hdr, AnyVectorKernel(), A(a))); }
